@@ -18,6 +18,13 @@ MSG_TYPE = {'yabgp.message.open': 1, 'yabgp.message.update': 2, 'yabgp.message.n
             'yabgp.message.keepalive': 4}
 
 
+# helpers whose result occupies a fixed-width field of the enclosing structure
+FIXED_WIDTH = {
+    'yabgp.message.attribute.pmsitunnel.PMSITunnel.construct_pmsi_label': 3,     # RFC 6514 s5
+    # (ESI and RD widths are decided under C07: esi-size / rd-range, with their known findings)
+}
+
+
 def bytes_like(v):
     return isinstance(v, BytesV) or (isinstance(v, Const) and isinstance(v.value, bytes)) or \
         (isinstance(v, Opaque) and v.kind == 'bytes')
@@ -165,38 +172,16 @@ def check(prog, rep, tier):
     rep.floor('R08.c', 'len()-carrying fields', nfields, 40)
 
     # ---------------------------------------------------------------- R08.a
+    hdr_classes = set()
     for qual, (f, outs) in sorted(results.items()):
         if f.name != 'construct_header':
             continue
+        hdr_classes.add(f.cls)
         want_type = MSG_TYPE.get(f.module.name)
         for k, v, s in outs:
             if k != 'val' or not isinstance(v, BytesV):
                 continue
-            items = BL.fields(BL.flatten(v))
-            probs = []
-            marker = items[0] if items else None
-            mk = None
-            if marker is not None and marker[0] == 'lit':
-                mk = marker[1]
-            elif marker is not None and marker[0] == 'rep' and isinstance(marker[1], Const) and \
-                    isinstance(marker[2], Const):
-                mk = marker[1].value * marker[2].value
-            if mk != b'\xff' * 16:
-                probs.append('marker is %r' % (mk if mk is not None else marker,))
-            fl = [p for p in items if p[0] == 'field']
-            if len(fl) < 2 or fl[0][1] != 'H' or fl[1][1] != 'B':
-                probs.append('length/type fields are %s' % [p[1] for p in fl])
-            else:
-                total = BL.lf(0)
-                for p in items:
-                    total = BL.lf_add(total, BL.item_len(p, s))
-                if not BL.lf_eq_ip(BL.lin(fl[0][2], s), total):
-                    probs.append('length field %s, message size %s' % (BL.lf_str(BL.lin(fl[0][2], s)), BL.lf_str(total)))
-                t = fl[1][2]
-                if want_type is not None and not (isinstance(t, Const) and t.value == want_type):
-                    probs.append('type field %s, expected %s' % (t.desc(), want_type))
-                if want_type is None and isinstance(t, Const) and t.value not in (5, 128):
-                    probs.append('type field %s' % t.desc())
+            probs = header_problems(v, s, want_type)
             key = 'header:%s' % qual
             if probs:
                 rep.bad('R08.a', key, file=f.file, line=f.node.lineno, func=qual, found='; '.join(probs),
@@ -204,6 +189,37 @@ def check(prog, rep, tier):
             else:
                 rep.ok('R08.a', key, file=f.file, line=f.node.lineno)
             break
+    # what the message-level constructors hand to the transport is exactly that header + body string
+    nmsg = 0
+    for qual, (f, outs) in sorted(results.items()):
+        if f.cls not in hdr_classes or f.name == 'construct_header':
+            continue
+        if not any(isinstance(n, ast.Attribute) and n.attr == 'construct_header' for n in ast.walk(f.node)):
+            continue
+        nmsg += 1
+        want_type = MSG_TYPE.get(f.module.name)
+        key = 'message:%s' % qual
+        probs = []
+        npaths = 0
+        for k, v, s in outs:
+            if k != 'val':
+                continue
+            npaths += 1
+            if isinstance(v, BytesV):
+                probs = header_problems(v, s, want_type)
+            else:
+                probs = ['a path returns %s, which is not the header + body string (the header length '
+                         'field no longer equals the size of what is sent)' % v.desc()[:160]]
+            if probs:
+                break
+        if probs:
+            rep.bad('R08.a', key, file=f.file, line=f.node.lineno, func=qual, found='; '.join(probs),
+                    expected='every returning path yields marker + length(total) + type + body', key=key)
+        elif npaths:
+            rep.ok('R08.a', key, file=f.file, line=f.node.lineno, found='%d returning path(s)' % npaths)
+        else:
+            rep.undecided('R08.a', key, file=f.file, line=f.node.lineno, found='no returning path')
+    rep.floor('R08.a', 'message-level constructors', nmsg, 5)
     # route refresh call sites pass 5 / 128
     rr = prog.func('yabgp.message.route_refresh.RouteRefresh.construct_header')
     bgp = prog.func('yabgp.core.protocol.BGP.send_route_refresh')
@@ -290,6 +306,32 @@ def check(prog, rep, tier):
             rep.ok('R08.b', key, file=f.file, line=f.node.lineno, found='%d path(s), FLAG 0x%02x ID %d' % (npaths, flag, aid))
     rep.floor('R08.b', 'attribute classes', nattr, 16)
 
+    # ---------------------------------------------------------------- R08.c fixed-width fields
+    for qual, width in sorted(FIXED_WIDTH.items()):
+        if qual not in results:
+            rep.undecided('R08.c', 'fixed:%s' % qual, found='function not found / not analysed')
+            continue
+        f, outs = results[qual]
+        key = 'fixed:%s' % qual
+        bad = None
+        n = 0
+        for k, v, st in outs:
+            if k != 'val' or (isinstance(v, Const) and v.value is None):
+                continue
+            n += 1
+            ln = BL.bytelen(v, st) if bytes_like(v) or isinstance(v, prims.SliceV) else None
+            if ln is None or ln[1] or ln[0] != width:
+                bad = 'a path returns %s (%s octets)' % (v.desc()[:120], BL.lf_str(ln) if ln is not None else 'unknown')
+                break
+        if bad:
+            rep.bad('R08.c', key, file=f.file, line=f.node.lineno, func=qual, found=bad,
+                    expected='exactly %d octets on every returning path: the field has a fixed place in the '
+                             'enclosing structure' % width, key=key)
+        elif n:
+            rep.ok('R08.c', key, file=f.file, line=f.node.lineno, found='%d path(s), %d octets' % (n, width))
+        else:
+            rep.undecided('R08.c', key, file=f.file, line=f.node.lineno, found='no returning path')
+
     # ---------------------------------------------------------------- R08.c TLV walks (literal lengths)
     tlv_walks(prog, rep, results)
 
@@ -306,6 +348,35 @@ def check(prog, rep, tier):
         rep.bad('R08.e', key, file=fn.file, line=node.lineno, func=fn.qualname,
                 found='%s: an earlier message changes how later ones are built (flags/lengths no longer match)' % what,
                 key=key)
+
+
+def header_problems(v, s, want_type):
+    items = BL.fields(BL.flatten(v))
+    probs = []
+    marker = items[0] if items else None
+    mk = None
+    if marker is not None and marker[0] == 'lit':
+        mk = marker[1]
+    elif marker is not None and marker[0] == 'rep' and isinstance(marker[1], Const) and \
+            isinstance(marker[2], Const):
+        mk = marker[1].value * marker[2].value
+    if mk != b'\xff' * 16:
+        probs.append('marker is %r' % (mk if mk is not None else marker,))
+    fl = [p for p in items if p[0] == 'field']
+    if len(fl) < 2 or fl[0][1] != 'H' or fl[1][1] != 'B':
+        probs.append('length/type fields are %s' % [p[1] for p in fl])
+    else:
+        total = BL.lf(0)
+        for p in items:
+            total = BL.lf_add(total, BL.item_len(p, s))
+        if not BL.lf_eq_ip(BL.lin(fl[0][2], s), total):
+            probs.append('length field %s, message size %s' % (BL.lf_str(BL.lin(fl[0][2], s)), BL.lf_str(total)))
+        t = fl[1][2]
+        if want_type is not None and not (isinstance(t, Const) and t.value == want_type):
+            probs.append('type field %s, expected %s' % (t.desc(), want_type))
+        if want_type is None and isinstance(t, Const) and t.value not in (5, 128):
+            probs.append('type field %s' % t.desc())
+    return probs
 
 
 def addpath_layout(prog, rep):
